@@ -50,8 +50,9 @@ impl Env {
     fn marker(&self, ctx: &context::Context) -> u64 {
         let d = ctx.deadline.checked_duration_since(self.base).map(|d| d.as_secs()).unwrap_or(0);
         let t = u128::from(ctx.trace_context.trace_id) as u64;
+        let sp = u64::from(ctx.trace_context.span_id);
         let sampled = ctx.trace_context.sampling_decision == tarpc::trace::SamplingDecision::Sampled;
-        if d == t && sampled == (d != 0) {
+        if d == t && d == sp && sampled == (d != 0) {
             d
         } else {
             999_999
@@ -60,6 +61,7 @@ impl Env {
     fn set_marker(&self, ctx: &mut context::Context, id: usize) {
         ctx.deadline = self.base + Duration::from_secs(1000 + id as u64);
         ctx.trace_context.trace_id = tarpc::trace::TraceId::from(1000 + id as u128);
+        ctx.trace_context.span_id = tarpc::trace::SpanId::from(1000 + id as u64);
         ctx.trace_context.sampling_decision = tarpc::trace::SamplingDecision::Sampled;
     }
 }
@@ -181,6 +183,7 @@ fn run0<S: Serve<Req = u32, Resp = u32>>(s: S, env: &Rc<Env>) -> Out {
     let mut ctx = context::current();
     ctx.deadline = env.base;
     ctx.trace_context.trace_id = tarpc::trace::TraceId::from(0u128);
+    ctx.trace_context.span_id = tarpc::trace::SpanId::from(0u64);
     ctx.trace_context.sampling_decision = tarpc::trace::SamplingDecision::Unsampled;
     let f = s.serve(ctx, 7);
     futures::pin_mut!(f);
@@ -488,7 +491,50 @@ pub fn run_c19(tier: Tier) -> i32 {
             });
         }
     });
-    let (evals, distinct, failures, skipped) = total.into_inner().unwrap();
+    let (mut evals, mut distinct, mut failures, skipped) = total.into_inner().unwrap();
+    // Once more, serially, under an OpenTelemetry layer and inside a span (the way `execute` runs a
+    // service): nestings of depth <= 2, every assignment of the before-parts. The hooks own the
+    // context; whatever tracing is installed does not rewrite what they left in it (seeded change
+    // C19l re-read the trace context from the span after a hook had changed it).
+    crate::c16::with_regime(crate::c16::Regime::Otel, || {
+        tracing::callsite::rebuild_interest_cache();
+        let base = Instant::now();
+        let span = tracing::info_span!("RPC");
+        for kinds in nestings.iter().filter(|k| k.len() <= 2) {
+            let (nb, na) = kinds.iter().fold((0, 0), |(b, a), k| {
+                let (pb, pa) = parts(*k);
+                (b + pb, a + pa)
+            });
+            for bi in 0..3usize.pow(nb as u32) {
+                let bs: Vec<BeforeB> = (0..nb).map(|i| [BeforeB::Ok, BeforeB::Mutate, BeforeB::Fail][(bi / 3usize.pow(i as u32)) % 3]).collect();
+                let env = Rc::new(Env { base, before: bs.clone(), after: vec![AfterB::Keep; na], handler_ok: true, log: RefCell::new(vec![]) });
+                ZENV.with(|e| *e.borrow_mut() = Some(env.clone()));
+                let out = std::panic::catch_unwind(std::panic::AssertUnwindSafe(|| span.in_scope(|| wrap3(Handler(env.clone()), kinds, 0, 0, &env))));
+                evals += 1;
+                {
+                    use std::hash::{Hash, Hasher};
+                    let mut h = std::collections::hash_map::DefaultHasher::new();
+                    (kinds, &bs, "otel").hash(&mut h);
+                    distinct.insert(h.finish());
+                }
+                let label = format!("nesting (innermost first) {kinds:?} under an OpenTelemetry layer inside a span, before-parts {bs:?}");
+                let (want, want_log) = reference(kinds, &env);
+                match out {
+                    Err(_) => failures.push(("C19-panic".to_string(), format!("{label}: {}", crate::mock::take_panic()))),
+                    Ok(None) => failures.push(("C19-stuck".to_string(), label)),
+                    Ok(Some(r)) => {
+                        let got = r.map_err(|e| e.detail);
+                        let got_log = env.log.borrow().clone();
+                        if got_log != want_log && failures.len() < 100 {
+                            failures.push(("C19-hook-order".to_string(), format!("{label}:\n  invoked  {got_log:?}\n  expected {want_log:?}")));
+                        } else if got != want && failures.len() < 100 {
+                            failures.push(("C19-result".to_string(), format!("{label}: result {got:?}, expected {want:?}")));
+                        }
+                    }
+                }
+            }
+        }
+    });
     finish_grid(
         "C19",
         tier,
@@ -497,7 +543,7 @@ pub fn run_c19(tier: Tier) -> i32 {
         distinct.len() as u64,
         &failures,
         json!({"nestings": nestings.len(), "nestings_skipped_over_part_cap": skipped, "part_cap": cap_parts}),
-        "every nesting of <=3 wrappers from {before(h), after(h), before_and_after(h), before().then(h1)[.then(h2)[.then(h3)]].serving(s)} around a recording handler (259 type instantiations built by generic code, and 106 of them - all nestings of depth <= 2, depth 3 over four wrapper kinds - also chained directly on the concrete types, so that method resolution is the one application code gets, plus variants of those in which the before-hooks (all of them, or all but the first of a list) are zero-sized values, plus every nesting once more with closures as before-hooks; what a hook leaves in the context is written into the deadline, the trace id and the sampling decision together; no dynamic dispatch over tarpc types); for each nesting every assignment of behaviours: each before-part in {ok, ok+mutate ctx, fail}, each after-part in {keep, Ok->Err, Err->Ok}, handler in {Ok, Err}; nestings whose parts exceed the cap are listed as skipped; exact equality of the invocation log (who ran, order, context marker seen, result seen) and of the final Result with a reference interpreter",
+        "every nesting of <=3 wrappers from {before(h), after(h), before_and_after(h), before().then(h1)[.then(h2)[.then(h3)]].serving(s)} around a recording handler (259 type instantiations built by generic code, and 106 of them - all nestings of depth <= 2, depth 3 over four wrapper kinds - also chained directly on the concrete types, so that method resolution is the one application code gets, plus variants of those in which the before-hooks (all of them, or all but the first of a list) are zero-sized values, plus every nesting once more with closures as before-hooks; what a hook leaves in the context is written into the deadline, the trace id, the span id and the sampling decision together; nestings of depth <= 2 once more under an OpenTelemetry layer inside a span; no dynamic dispatch over tarpc types); for each nesting every assignment of behaviours: each before-part in {ok, ok+mutate ctx, fail}, each after-part in {keep, Ok->Err, Err->Ok}, handler in {Ok, Err}; nestings whose parts exceed the cap are listed as skipped; exact equality of the invocation log (who ran, order, context marker seen, result seen) and of the final Result with a reference interpreter",
         samples.into_inner().unwrap().into_iter().map(|c| json!({"case": c})).collect(),
     )
 }
